@@ -189,6 +189,13 @@ func main() {
 		r := o.Result
 		solverSecs += r.Seconds
 		fnSet[o.Fn] = true
+		if o.Class == "cover-call" {
+			if r.Status == "unsat-after-sat-before" && failedByName[o.Name] == nil {
+				failedByName[o.Name] = o
+				failedNames = append(failedNames, o.Name)
+			}
+			continue
+		}
 		if o.Cover {
 			c := coverByFn[o.Fn+"|"+o.Name]
 			if r.Status == "unsat" {
